@@ -95,6 +95,29 @@ def run(ctx):
         ctx.count('profile', 'corpus')
     if any('get_request_id' in p for p in auditp):
         ctx.count('directed', 'unlocked-get_request_id-probe')
+    # the INITIAL state built by the real constructor (v3+ and v1/v2, several max_in_flight) must satisfy the model's `init`
+    for icfg in conn_check.INIT_CFGS:
+        probs, facts = conn_check.initial_state_problems(icfg)
+        ctx.case(['init', icfg], nontrivial=True, sample={'constructor': icfg, 'state': facts})
+        ctx.count('profile', 'initial-state')
+        for key, what in probs:
+            ctx.violation(key, '%s (Connection.__init__ with %r)' % (what, icfg), case={'init_cfg': icfg}, expected='request_ids == 0..highest_request_id <= max',
+                          actual=facts, kind='input', theorem='C09_unique_ids / C09_bound (hypothesis: init n m t)')
+    # one history past the constructor's pre-allocated ids on an unmodified default connection (grow path of get_request_id)
+    for icfg in (conn_check.INIT_CFGS[0], conn_check.INIT_CFGS[5]) if ctx.tier == 'thorough' else (conn_check.INIT_CFGS[0],):
+        if icfg.get('protocol_version', 4) < 3:
+            continue      # the harness speaks v4 frames; v1/v2 connections cannot grow (all ids pre-allocated)
+        h2, acts2 = conn_check.past_initial_fill(icfg)
+        ctx.case(['past-fill', icfg], nontrivial=True, sample={'constructor': icfg, 'requests_in_flight': len(h2.tokens),
+                                                              'highest_after': h2.conn.highest_request_id})
+        ctx.count('profile', 'past-initial-fill')
+        for key, what, k in oracles(h2, icfg):
+            ctx.violation(key, '%s [%d requests simultaneously in flight on a default connection]' % (what, len(acts2) // 2),
+                          case={'past_fill': icfg}, expected='C09 statement', actual={kk: (v if not isinstance(v, list) or len(v) < 12 else v[:6] + ['...'] + v[-6:])
+                                                                                          for kk, v in h2.points[k][1].items() if kk != 'events'},
+                          kind='history', theorem='C09_unique_ids')
+        for pr in h2.problems:
+            ctx.disagreement('harness-problem', pr[:300], case={'past_fill': icfg})
     n = 120 if ctx.tier == "quick" else 1500
     hs += conn_check.random_histories(ctx, n)
     exhaustive = []
@@ -127,6 +150,17 @@ def run(ctx):
 
 def replay(ctx, rp):
     case = rp.get('case') or {}
+    if case.get('init_cfg'):
+        probs, facts = conn_check.initial_state_problems(case['init_cfg'])
+        print('constructor state', facts, probs)
+        print(('VIOLATION property=C09 replay=%s' % ctx.replay_path) if probs else 'not reproduced')
+        return 1 if probs else 0
+    if case.get('past_fill'):
+        h2, acts2 = conn_check.past_initial_fill(case['past_fill'])
+        found = oracles(h2, case['past_fill'])
+        print('oracle:', found)
+        print(('VIOLATION property=C09 replay=%s' % ctx.replay_path) if found else 'not reproduced')
+        return 1 if found else 0
     if not case.get('actions'):
         print('nothing to replay: %s' % rp.get('theorem'))
         return 1
